@@ -628,3 +628,31 @@ package rosmar
 //@   ensures [C07:DeleteSubDocPaths.body-kept] result == nil ==> r.present && r2.value == r.value && r2.isJSON == r.isJSON && r2.exp == r.exp && r2.tombstone == r.tombstone
 //@   ensures [C07:DeleteSubDocPaths.xattrs-only-removed] result == nil ==> forall k: Str :: xget(r2.xattrs, k) == NOX || xget(r2.xattrs, k) == xget(r.xattrs, k)
 //@   ensures [C01:DeleteSubDocPaths.missing] !r.present ==> result != nil
+//@
+//@ fn (*Collection).getRawWithXattrs
+//@   modular
+//@   let r = old(doc(c.id, key))
+//@   requires DocInv(r)
+//@   loop 1 invariant [C01:getRawWithXattrs.loop] true
+//@   loop 1 body [C07:getRawWithXattrs.one-per-key] iter("mapupdate") <= 1
+//@   loop 1 body [C17:getRawWithXattrs.revid] iter("mapupdate") == 1 && updkey() == "$document.revid" ==> updval() == bytesof(sprintfd("\"%d\"", r.rev))
+//@   loop 1 body [C07:getRawWithXattrs.stored-xattr] iter("mapupdate") == 1 && updkey() != "$document.revid" && updkey() != "$document" ==> updval() == xget(r.xattrs, updkey()) && updval() != NOX
+//@   ensures [C01,C05:getRawWithXattrs.row]     result1 == nil ==> r.present && result0.Body == r.value && result0.Cas == r.cas && (result0.IsTombstone <==> r.tombstone != 0)
+//@   ensures [C01:getRawWithXattrs.missing]     !r.present ==> result1 != nil && (ismissing(result1) || isdberr(result1) || isclosed(result1))
+//@   ensures [C01,C11:getRawWithXattrs.frame]   db == old(db) && stmtsScoped(c.id)
+//@
+//@ fn (*Collection).GetWithXattrs
+//@   requires DocInv(doc(c.id, key))
+//@   loop 1 invariant [C01:GetWithXattrs.loop] true
+//@   loop 1 body [C07:GetWithXattrs.returns-stored] iter("mapupdate") <= 1 && (iter("mapupdate") == 1 ==> updval() == callret("Collection.getRawWithXattrs", 0).Xattrs[updkey()])
+//@   ensures [C01,C05:GetWithXattrs.delegates] count("call:Collection.getRawWithXattrs") == 1 && callarg("Collection.getRawWithXattrs", 1) == key && callarg("Collection.getRawWithXattrs", 0) == c
+//@   ensures [C01,C05:GetWithXattrs.body]   err == nil ==> v == callret("Collection.getRawWithXattrs", 0).Body && cas == callret("Collection.getRawWithXattrs", 0).Cas
+//@   ensures [C01,C05:GetWithXattrs.missing] callret("Collection.getRawWithXattrs", 1) == nil && isnull(callret("Collection.getRawWithXattrs", 0).Body) && len(callret("Collection.getRawWithXattrs", 0).Xattrs) == 0 ==> ismissing(err)
+//@   ensures [C01:GetWithXattrs.error]      callret("Collection.getRawWithXattrs", 1) != nil ==> err == callret("Collection.getRawWithXattrs", 1)
+//@   ensures [C01:GetWithXattrs.frame]      db == old(db)
+//@
+//@ fn (*Collection).GetXattrs
+//@   requires DocInv(doc(c.id, key))
+//@   ensures [C01:GetXattrs.delegates] count("call:Collection.getRawWithXattrs") == 1 && callarg("Collection.getRawWithXattrs", 1) == key && callarg("Collection.getRawWithXattrs", 0) == c
+//@   ensures [C01,C07:GetXattrs.returns-stored] result2 == nil ==> result0 == callret("Collection.getRawWithXattrs", 0).Xattrs && result1 == callret("Collection.getRawWithXattrs", 0).Cas
+//@   ensures [C01:GetXattrs.error]      callret("Collection.getRawWithXattrs", 1) != nil ==> result2 == callret("Collection.getRawWithXattrs", 1)
